@@ -70,10 +70,10 @@ def _zip(node, m):
 
 
 def _key_zip(node, m):
-    if not (m.cap_keys == 'req' and m.cap_str == 'req' and not m.taint and m.keys and len(set(m.keys)) == len(m.keys)):
+    if not (m.cap_keys == 'req' and m.cap_str == 'req' and not m.taint and m.keys):
         return None
     return {'op': 'key_zip', 'how': 'method',
-            'ins': [node, {'op': 'dict', 'id': 10, 'keys': list(m.keys[::-1]), 'mode': 'pickle'}]}
+            'ins': [node, {'op': 'dict', 'id': 10, 'keys': sorted(set(m.keys))[::-1], 'mode': 'pickle'}]}
 
 
 TEMPLATES = [
@@ -145,3 +145,39 @@ def enum_programs(depth):
                     yield names + (name,), new
                     nxt.append((names + (name,), new, m2))
             frontier = nxt
+
+
+def _src(kind, sid, n):
+    if kind == 'list':
+        return {'op': 'list', 'id': sid, 'n': n, 'mode': 'pickle', 'dup': False}
+    return {'op': 'dict', 'id': sid, 'keys': [f'{chr(96 + sid)}{i:02d}' for i in range(n)], 'mode': 'pickle'}
+
+
+def enum_structural():
+    """Parameter sweeps of single index-translating stages over LONGER sources than the chains use: intersperse
+    length pairs / triples (ties of the position fractions), batch sizes, slice bounds and steps, concatenations, tiles."""
+    import itertools
+    for kind in ('list', 'dict'):
+        for n1 in range(1, 25):
+            for n2 in range(1, 25):
+                yield ('intersperse2',), {'op': 'intersperse', 'how': 'method', 'ins': [_src(kind, 1, n1),
+                                                                                        _src(kind, 2, n2)]}
+        for n1, n2, n3 in itertools.product(range(1, 7), repeat=3):
+            yield ('intersperse3',), {'op': 'intersperse', 'how': 'function',
+                                      'ins': [_src(kind, 1, n1), _src(kind, 2, n2), _src(kind, 3, n3)]}
+        for n in range(0, 21):
+            for bs in range(1, 8):
+                for drop in (False, True):
+                    yield ('batch',), {'op': 'batch', 'n': bs, 'drop_last': drop, 'in': _src(kind, 1, n)}
+        for a, b, c in itertools.product(range(0, 5), repeat=3):
+            yield ('concat3',), {'op': 'concat', 'how': 'function', 'ins': [_src(kind, 1, a), _src(kind, 2, b),
+                                                                            _src(kind, 3, c)]}
+        bounds = [None] + list(range(-6, 7))
+        for a in bounds:
+            for b in bounds:
+                for c in (None, 1, -1, 2, -2, 3, -3):
+                    yield ('slice',), {'op': 'slice', 'form': {'k': 'slice', 'a': a, 'b': b, 'c': c},
+                                       'in': _src(kind, 1, 5)}
+        for n in range(0, 5):
+            for r in range(1, 5):
+                yield ('tile',), {'op': 'tile', 'r': r, 'in': _src(kind, 1, n)}
